@@ -479,6 +479,20 @@ func (r *c03WireRec) Write(b []byte) (int, error) {
 
 func (r *c03WireRec) Close() error { return r.w.Close() }
 
+// c03Dribble hands the client the reply stream in pieces of 1 to 3 bytes (a byte stream may be cut anywhere: an ssh channel,
+// a TCP segment boundary or a proxy may split even the 4-byte length prefix of a reply)
+type c03Dribble struct {
+	r   io.Reader
+	rng *rand.Rand
+}
+
+func (d *c03Dribble) Read(p []byte) (int, error) {
+	if k := 1 + d.rng.Intn(3); len(p) > k {
+		p = p[:k]
+	}
+	return d.r.Read(p)
+}
+
 func c03Within(d time.Duration, fn func()) bool {
 	ch := make(chan struct{})
 	go func() { fn(); close(ch) }()
@@ -604,7 +618,7 @@ func c03Check(cl *sftp.Client, f *sftp.File, op c03Op) string {
 	return ""
 }
 
-func c03RunCase(class string, G, W int, kinds []string, nops int, perm func(batch, m int) []int, opSeed int64) *c03CaseRes {
+func c03RunCase(class string, G, W int, kinds []string, nops int, perm func(batch, m int) []int, opSeed int64, dribble bool) *c03CaseRes {
 	res := &c03CaseRes{}
 	add := func(s string) { res.reasons = append(res.reasons, s) }
 	c1, c2 := net.Pipe()
@@ -618,6 +632,10 @@ func c03RunCase(class string, G, W int, kinds []string, nops int, perm func(batc
 	}
 	p := newC03Peer(c2, idle, perm)
 	rec := &c03WireRec{w: c1}
+	var rd io.Reader = c1
+	if dribble {
+		rd = &c03Dribble{r: c1, rng: rand.New(rand.NewSource(opSeed ^ 0x5eed))}
+	}
 	finish := func() {
 		c1.Close()
 		c2.Close()
@@ -639,7 +657,7 @@ func c03RunCase(class string, G, W int, kinds []string, nops int, perm func(batc
 	}
 	var cl *sftp.Client
 	var err error
-	if !c03Within(c03Watchdog, func() { cl, err = sftp.NewClientPipe(c1, rec, opts...) }) || err != nil {
+	if !c03Within(c03Watchdog, func() { cl, err = sftp.NewClientPipe(rd, rec, opts...) }) || err != nil {
 		add("harness: session setup failed")
 		finish()
 		return res
@@ -791,8 +809,12 @@ func runC03(c *Ctx) {
 				}
 				return permRng.Perm(m)
 			}
-			n := c.Case("perm", kvi("g", cb.g), kvi("w", cb.w), kvi("hist", h), kvs("kindmix", strings.Join(kinds, "+")), kvs("class", cb.class))
-			r := c03RunCase(cb.class, cb.g, cb.w, kinds, nops, perm, opSeed)
+			dribble := h%3 == 2 // a third of the histories: the reply stream reaches the client in pieces of 1 to 3 bytes
+			n := c.Case("perm", kvi("g", cb.g), kvi("w", cb.w), kvi("hist", h), kvs("kindmix", strings.Join(kinds, "+")), kvs("class", cb.class), kvb("dribble", dribble))
+			r := c03RunCase(cb.class, cb.g, cb.w, kinds, nops, perm, opSeed, dribble)
+			if dribble {
+				c.Stat("histories_with_replies_in_1_to_3_byte_pieces")
+			}
 			if r.outOfOrder > 0 {
 				c.NT(n)
 			}
